@@ -14,7 +14,7 @@ import (
 func init() {
 	register(&Spec{ID: "C01", Title: "Outgoing messages are well-formed TDS packet sequences", Run: runC01,
 		Meta: core.Meta{
-			Explanation: "R01.23 (E-CONST): the exhaustion test of getValidChannelId is id > 65535 (or >= 65536). R01.22 (who-may-call): Channel.sendPacket is called by sendPackets, Close (teardown) and NewChannel (setup) only. R01.21 (who-may-call): PacketQueue.AddPacket is called by Channel.WritePacket only. R01.20 = R15.14 (WriteUintK/WriteIntK/WriteString never index the queue themselves: a value that straddles a packet end is split by WriteBytes, once). R01.19 (who-may-call): PacketQueue.SetPosition is called by Channel.WritePacket (and PacketQueue itself) only. R01.18 = R08.8 (every PACKSIZE member of an ENVCHANGE is tested, and from the test every path to the next member stores Conn.packetSize or returns an error — no announced size is silently ignored). R01.17: every image Packet.Bytes returns is a slice made with Header.Length elements. Structural necessary conditions of well-formed packetisation; the numeric quantification (every length x packet size x call split) is not decided. R01.1 (E-OWN): the transport Conn.conn is referenced in exactly four roles — initialised in NewConn, closed in Conn.Close, reader argument of Packet.ReadFrom in Conn.ReadFrom, writer argument of Packet.WriteTo in sendPacket; any other use bypasses packetisation. R01.2: in sendPacket the write is dominated by Header.MsgType := CurrentHeaderType; the end-of-message flag is set exactly on the edge where len(packet.Data) differs from the LIVE Conn.PacketBodySize() (a call, not a cached value) by or-ing TDS_BUFSTAT_EOM into Header.Status before the write; the byte count returned by the write is compared with Header.Length. R01.3: NewPacket sets Header.Length = size and Data = make(size-8); the trim in sendPackets stores Header.Length = PacketHeaderSize + k and Data = Data[:k] for the same k (the tx queue's indexData). R01.4: in sendPackets the partial-packet test is `i == indexPacket && indexData < PacketBodySize()` with a strict comparison against the live body size; the early `return nil` lies on its onlyFull edge, the trim on the other; the deferred DiscardUntilCurrentPosition runs on every exit. R01.5: SendRemainingPackets calls sendPackets(ctx, false) under the closed protocol and resets the channel on every exit (C03 R03.4). R01.6: the flush reaches its success return only through at least one sendPacket call (path-insensitive on the loop). R01.7: Packet.WriteTo hands the whole serialised packet (packet.Bytes()) to the transport in exactly one Write call on every path — all channels share the transport without a send lock, so one Write per packet is what keeps packets of different channels from interleaving. R01.8: the tx side (header type, tx queue, lastPkgTx) is restored on every exit of SendRemainingPackets, also when the flush fails. R01.10 = R15.7: the deferred DiscardUntilCurrentPosition drops the packet under the position when indexData has reached (>= or ==, not >) the end of its body, after the queue was shifted — otherwise a message that ends exactly on a packet boundary is sent twice. R01.11 = R12.3 (channel id and packet number stamped, the number advanced by one modulo 256). R01.12 = R15.6 (WriteBytes computes the room left in a packet from that packet's own header length and body, never from the live packet size: a shortcut that compares with packetSize() instead of the body size drops the bytes that overhang). R01.13 (E-OWN): every store to Channel.CurrentHeaderType assigns a TDS_BUF_* constant (never a saved or computed value). R01.14 = R14.12 (after a failed sendPacket no further packet of the message is written and the error is returned). R01.15: PacketHeader.Read and PacketHeader.Write place/take MsgType, Status, Length, Channel, PacketNr, Window at offsets 0, 1, 2, 4, 6, 7 (compared with the specification, not with each other). R01.16 (E-OWN): no function statically reachable from (*Conn).ReadFrom stores CurrentHeaderType or lastPkgTx or calls a method of queueTx. R01.9: sendPackets/sendPacket decide 'full' and 'last' with Conn.PacketBodySize() while the tx queue sizes new packets with its packetSize function; both must be the one negotiated size: (*Conn).PacketSize returns Conn.packetSize itself on every path, PacketBodySize returns that value minus PacketHeaderSize, every value stored into Channel.queueTx is NewPacketQueue(<conn>.PacketSize) (the bound method of the channel's connection, or a function literal that only returns that call), and PacketQueue.packetSize is assigned only by NewPacketQueue from its parameter.",
+			Explanation: "R01.24: in no function of package tds is a call of Channel.Reset/reset (deferred calls excepted) followed on some path by SendPackage, QueuePackage, SendRemainingPackets or sendPackets. R01.25: Conn.NewChannel hands the method value tds.PacketSize itself to both NewPacketQueue calls, not a closure over a size captured at construction. R01.23 (E-CONST): the exhaustion test of getValidChannelId is id > 65535 (or >= 65536). R01.22 (who-may-call): Channel.sendPacket is called by sendPackets, Close (teardown) and NewChannel (setup) only. R01.21 (who-may-call): PacketQueue.AddPacket is called by Channel.WritePacket only. R01.20 = R15.14 (WriteUintK/WriteIntK/WriteString never index the queue themselves: a value that straddles a packet end is split by WriteBytes, once). R01.19 (who-may-call): PacketQueue.SetPosition is called by Channel.WritePacket (and PacketQueue itself) only. R01.18 = R08.8 (every PACKSIZE member of an ENVCHANGE is tested, and from the test every path to the next member stores Conn.packetSize or returns an error — no announced size is silently ignored). R01.17: every image Packet.Bytes returns is a slice made with Header.Length elements. Structural necessary conditions of well-formed packetisation; the numeric quantification (every length x packet size x call split) is not decided. R01.1 (E-OWN): the transport Conn.conn is referenced in exactly four roles — initialised in NewConn, closed in Conn.Close, reader argument of Packet.ReadFrom in Conn.ReadFrom, writer argument of Packet.WriteTo in sendPacket; any other use bypasses packetisation. R01.2: in sendPacket the write is dominated by Header.MsgType := CurrentHeaderType; the end-of-message flag is set exactly on the edge where len(packet.Data) differs from the LIVE Conn.PacketBodySize() (a call, not a cached value) by or-ing TDS_BUFSTAT_EOM into Header.Status before the write; the byte count returned by the write is compared with Header.Length. R01.3: NewPacket sets Header.Length = size and Data = make(size-8); the trim in sendPackets stores Header.Length = PacketHeaderSize + k and Data = Data[:k] for the same k (the tx queue's indexData). R01.4: in sendPackets the partial-packet test is `i == indexPacket && indexData < PacketBodySize()` with a strict comparison against the live body size; the early `return nil` lies on its onlyFull edge, the trim on the other; the deferred DiscardUntilCurrentPosition runs on every exit. R01.5: SendRemainingPackets calls sendPackets(ctx, false) under the closed protocol and resets the channel on every exit (C03 R03.4). R01.6: the flush reaches its success return only through at least one sendPacket call (path-insensitive on the loop). R01.7: Packet.WriteTo hands the whole serialised packet (packet.Bytes()) to the transport in exactly one Write call on every path — all channels share the transport without a send lock, so one Write per packet is what keeps packets of different channels from interleaving. R01.8: the tx side (header type, tx queue, lastPkgTx) is restored on every exit of SendRemainingPackets, also when the flush fails. R01.10 = R15.7: the deferred DiscardUntilCurrentPosition drops the packet under the position when indexData has reached (>= or ==, not >) the end of its body, after the queue was shifted — otherwise a message that ends exactly on a packet boundary is sent twice. R01.11 = R12.3 (channel id and packet number stamped, the number advanced by one modulo 256). R01.12 = R15.6 (WriteBytes computes the room left in a packet from that packet's own header length and body, never from the live packet size: a shortcut that compares with packetSize() instead of the body size drops the bytes that overhang). R01.13 (E-OWN): every store to Channel.CurrentHeaderType assigns a TDS_BUF_* constant (never a saved or computed value). R01.14 = R14.12 (after a failed sendPacket no further packet of the message is written and the error is returned). R01.15: PacketHeader.Read and PacketHeader.Write place/take MsgType, Status, Length, Channel, PacketNr, Window at offsets 0, 1, 2, 4, 6, 7 (compared with the specification, not with each other). R01.16 (E-OWN): no function statically reachable from (*Conn).ReadFrom stores CurrentHeaderType or lastPkgTx or calls a method of queueTx. R01.9: sendPackets/sendPacket decide 'full' and 'last' with Conn.PacketBodySize() while the tx queue sizes new packets with its packetSize function; both must be the one negotiated size: (*Conn).PacketSize returns Conn.packetSize itself on every path, PacketBodySize returns that value minus PacketHeaderSize, every value stored into Channel.queueTx is NewPacketQueue(<conn>.PacketSize) (the bound method of the channel's connection, or a function literal that only returns that call), and PacketQueue.packetSize is assigned only by NewPacketQueue from its parameter.",
 			NotDecided:  "Byte-exact concatenation of bodies, 'every packet but the last is full' as arithmetic and packet-size changes between messages are not decided.",
 			Assumptions: []string{"Packet.WriteTo serialises header then data (C15 / packet.go)", "channel id and packet number stamping is C12's R12.3"},
 		}})
@@ -60,6 +60,10 @@ func runC01(r *core.Run) {
 	defer func() {
 		r.Rule("R01.23", "channel ids fit the 16-bit header field (R12.4)", 1, false)
 		defer idLimit(r, "R01.23")
+		r.Rule("R01.24", "queued bytes are never discarded in front of a send", 2, false)
+		defer noResetBeforeSend(r, "R01.24")
+		r.Rule("R01.25", "the queues ask the connection for the packet size every time", 2, false)
+		defer liveSizeGetter(r, "R01.25")
 		p := r.Prog
 		callersOf(r, "R01.22", p.Func("tds", "Channel", "sendPacket"), map[*ssa.Function]bool{p.Func("tds", "Channel", "sendPackets"): true, p.Func("tds", "Channel", "Close"): true, p.Func("tds", "Conn", "NewChannel"): true},
 			"queue flush / teardown / setup", "a packet built outside the transmit queue (NewPacket with its body cut to nil keeps Header.Length at the full size) goes out zero-padded, so the message carries a body of zeros that belongs to no package")
